@@ -15,7 +15,21 @@ func TestReplayDebug(t *testing.T) {
 	b, _ := os.ReadFile(f)
 	var rf ReplayFile
 	json.Unmarshal(b, &rf)
+	var steps []string
+	if os.Getenv("VERIF_DEBUG") != "" {
+		DebugSteps = &steps
+	}
 	o := Props[rf.Property].Run(t, ReplayTape(rf.Tape))
+	DebugSteps = nil
+	if n := len(steps); n > 0 {
+		from := n - 40
+		if from < 0 {
+			from = 0
+		}
+		for _, s := range steps[from:] {
+			fmt.Println("OP", s)
+		}
+	}
 	fmt.Println(o.Desc)
 	for _, v := range o.Violations {
 		fmt.Println("V:", v.Signature, v.Message)
